@@ -12,9 +12,11 @@ import (
 	"runtime/debug"
 	"sync"
 	"syscall"
+	"time"
 
 	libaudit "github.com/elastic/go-libaudit/v2"
 	"github.com/elastic/go-libaudit/v2/vshim/sched"
+	"github.com/elastic/go-libaudit/v2/vshim/vtime"
 
 	"verif/engine/guard"
 )
@@ -91,15 +93,18 @@ func MayFail(dev int) bool { return dev == DevDataFirst }
 // Shape fixes header details of what the simulated kernel sends that the small default
 // alphabet holds constant; the sweeps enumerate them one at a time.
 type Shape struct {
-	ReplyFlags  uint16 // ORed into nlmsg_flags of every acknowledgement / data / done message
-	EventType   uint16 // record type of unsolicited events (0 = 1300)
-	EventFlags  uint16 // nlmsg_flags of unsolicited events
-	ForceEvents int    // this many unsolicited events in front of EVERY datagram (no deviation budget spent)
-	Errno       int    // when non-zero: the verdict menu is {0, Errno}
-	ErrnoAlways bool   // with Errno: every request is answered with it (no choice)
-	ExtAck      int    // extended acknowledgements (NETLINK_EXT_ACK): 1 = capped ACK (NLM_F_CAPPED|NLM_F_ACK_TLVS, no request payload echoed) followed by NLMSGERR_ATTR_MSG / ATTR_OFFS attributes, 2 = uncapped with attributes after the echoed request
-	SeqStart    uint32 // first sequence number the transport hands out is SeqStart+1 (0 = 100)
-	WrapErrors  int    // how receive failures are reported: 0 bare syscall.Errno, 1 fmt.Errorf("%w"), 2 *os.SyscallError
+	ReplyFlags    uint16 // ORed into nlmsg_flags of every acknowledgement / data / done message
+	EventType     uint16 // record type of unsolicited events (0 = 1300)
+	EventFlags    uint16 // nlmsg_flags of unsolicited events
+	ForceEvents   int    // this many unsolicited events in front of EVERY datagram (no deviation budget spent)
+	Errno         int    // when non-zero: the verdict menu is {0, Errno}
+	ErrnoAlways   bool   // with Errno: every request is answered with it (no choice)
+	ExtAck        int    // extended acknowledgements (NETLINK_EXT_ACK): 1 = capped ACK (NLM_F_CAPPED|NLM_F_ACK_TLVS, no request payload echoed) followed by NLMSGERR_ATTR_MSG / ATTR_OFFS attributes, 2 = uncapped with attributes after the echoed request
+	SeqStart      uint32 // first sequence number the transport hands out is SeqStart+1 (0 = 100)
+	RecvLatencyMs int    // every Receive call takes this long (virtual clock): a transport with a receive timeout, a loaded host
+	Buffers       int    // the transport rotates between this many receive buffers (0/1 = one reused buffer); what it
+	// handed out stays valid until the NEXT Receive only - every buffer is poisoned when it comes round again
+	WrapErrors int // how receive failures are reported: 0 bare syscall.Errno, 1 fmt.Errorf("%w"), 2 *os.SyscallError
 }
 
 func (s *Sim) wrapErr(e syscall.Errno) error {
@@ -139,6 +144,8 @@ type Sim struct {
 	AckOnlyDevs  bool
 	Shape        Shape
 	seqInit      bool
+	bufs         [][]byte
+	bufIdx       int
 	// YieldAfterParse: see Receive
 	YieldAfterParse bool
 	// Guard: every datagram is handed to the parser with cap == len and its last byte on the last
@@ -312,6 +319,11 @@ func (s *Sim) Receive(nonBlocking bool, p libaudit.NetlinkParser) ([]syscall.Net
 	s.mu.Lock()
 	defer s.mu.Unlock()
 	s.Receives++
+	if d := s.Shape.RecvLatencyMs; d > 0 {
+		if c := vtime.Installed(); c != nil {
+			c.Advance(time.Duration(d) * time.Millisecond)
+		}
+	}
 	if s.failLeft > 0 {
 		s.failLeft--
 		e := s.failErr
@@ -444,6 +456,23 @@ func (s *Sim) Receive(nonBlocking bool, p libaudit.NetlinkParser) ([]syscall.Net
 	}
 	s.Q = s.Q[1:]
 	d.Handed++
+	if k := s.Shape.Buffers; k > 1 {
+		if len(s.bufs) != k {
+			s.bufs = make([][]byte, k)
+			for i := range s.bufs {
+				s.bufs[i] = make([]byte, len(s.Buf))
+			}
+		}
+		// everything handed out earlier is invalid from now on: poison ALL buffers but keep rotating, so that a
+		// caller that kept a reference sees garbage whichever buffer it was
+		for _, b := range s.bufs {
+			for i := range b {
+				b[i] = 0xEE
+			}
+		}
+		s.bufIdx = (s.bufIdx + 1) % k
+		s.Buf = s.bufs[s.bufIdx]
+	}
 	for i := range s.Buf {
 		s.Buf[i] = 0xEE
 	}
